@@ -1,11 +1,920 @@
 /-
   C09 — DeepONet output is the branch-trunk inner product; the fast trunk path is equivalent.
+
+  Theorems about the executable model `TPV/Model/DeepONet.lean` (the same definitions the driver
+  `drivers/C09.lean` runs against the implementation).  Scalars: any commutative ring for the algebraic
+  statements (in particular `Rat`, the driver's exact instance), no structure at all for the purely
+  structural ones (they hold for `Float` as well).
+
+  Reading guide
+  * contraction:      `out_spec`, `contract_shared`, `contract_unique`, `out_batch_independent`, `dot_eq_sum`
+  * reshape:          `rechunk_flatten`, `reshapeFeat_rows`, `splitRow_get`, `splitRow_index_lt`, `splitRow_flatten`,
+                      `branchFlatten_rows`, `reshapeFeatOld_mixes_rows` (negative result about the pinned snapshot)
+  * branch variants:  `meshgrid_eq`, `functionSet_rows`, `collection_rows`, `branch_variants_agree`
+  * fast trunk path:  `fastLinear_eq_plain`, `fastLinear_r2`, `fastNet_eq_plainNet`, `fastNet_r2`,
+                      `forward_fast_eq_plain`, `fastLinear_ne_plain_unshared` (the precondition is needed)
+  * coded backward:   `vjp_input`, `vjp_weight`, `vjp_bias` (exact vector-Jacobian products of the affine layer),
+                      `gradWeight_eq_plain`, `gradInput_adjoint` (second order)
+  Non-vacuity examples (concrete data meeting the hypotheses) are collected at the end of the file.
 -/
 import TPV.Model.DeepONet
+import Mathlib.Algebra.BigOperators.Fin
+import Mathlib.Tactic.Ring
+
+set_option linter.unusedSectionVars false
+set_option linter.unusedSimpArgs false
+set_option linter.unusedVariables false
 
 namespace TPV.DeepONet
+open List
 
-/-- the divisibility check of `finalize` rejects 3 neurons for 2 output components -/
-theorem finalize_rejects_3_2 : finalizeOk 2 3 = false := by decide
+/-! ## branch input variants -/
+
+section
+variable {K : Type}
+
+theorem zipWith_replicate_left {α β γ} (f : α → β → γ) (a : α) : ∀ (l : List β),
+    List.zipWith f (List.replicate l.length a) l = l.map (f a)
+  | [] => by simp
+  | b :: l => by simp [List.replicate_succ, zipWith_replicate_left f a l]
+
+theorem zipWith_replicate_right {α β γ} (f : α → β → γ) (b : β) : ∀ (l : List α),
+    List.zipWith f l (List.replicate l.length b) = l.map (fun a => f a b)
+  | [] => by simp
+  | a :: l => by simp [List.replicate_succ, zipWith_replicate_right f b l]
+
+/-- the meshgrid pairs parameter row `i` with discretisation point `j` -/
+theorem meshgrid_eq (params pts : List (List K)) :
+    meshgrid params pts = params.map (fun p => pts.map (fun x => p ++ x)) := by
+  unfold meshgrid
+  simp only []
+  have h := zipWith_replicate_right (fun (ps : List (List K)) (xs : List (List K)) => List.zipWith (· ++ ·) ps xs) pts
+    (params.map (fun p => List.replicate pts.length p))
+  simp only [List.length_map] at h
+  rw [h, List.map_map]
+  apply List.map_congr_left
+  intro p _
+  simp only [Function.comp]
+  exact zipWith_replicate_left (· ++ ·) p pts
+
+/-- supplying a function set = supplying, function by function, the callable `x ↦ f (pᵢ ++ x)` -/
+theorem functionSet_rows (f : List K → List K) (params pts : List (List K)) :
+    batchOfFunctionSet f params pts = params.flatMap (fun p => batchOfCallable (fun x => f (p ++ x)) pts) := by
+  unfold batchOfFunctionSet
+  rw [meshgrid_eq]
+  induction params with
+  | nil => simp
+  | cons p ps ih => simp [batchOfCallable, List.flatMap_cons, List.map_map, Function.comp_def] at ih ⊢; exact ih
+
+theorem foldl_append_aux {α β} (g : α → List β) : ∀ (l : List α) (acc : List β),
+    l.foldl (fun acc s => acc ++ g s) acc = acc ++ l.flatMap g
+  | [], acc => by simp
+  | a :: l, acc => by simp [foldl_append_aux g l, List.flatMap_cons, List.append_assoc]
+
+/-- a collection of function sets presents the functions of its members one after the other -/
+theorem collection_rows (sets : List ((List K → List K) × List (List K))) (pts : List (List K)) :
+    batchOfCollection sets pts = sets.flatMap (fun s => batchOfFunctionSet s.1 s.2 pts) := by
+  unfold batchOfCollection
+  rw [foldl_append_aux]; simp
+
+/-- callable, rank-2 tensor/Points of its values, rank-3 tensor/Points of its values, and the function
+    set with the single parameter row `p`: one and the same batch -/
+theorem branch_variants_agree (f : List K → List K) (p : List K) (pts : List (List K)) :
+    let fp := fun x => f (p ++ x)
+    batchOfTensor2 (pts.map fp) = batchOfCallable fp pts ∧
+    batchOfTensor3 [pts.map fp] = batchOfCallable fp pts ∧
+    batchOfFunctionSet f [p] pts = batchOfCallable fp pts := by
+  refine ⟨rfl, rfl, ?_⟩
+  rw [functionSet_rows]; simp
+
+end
+
+/-! ## the contraction of `DeepONet.forward` -/
+
+section
+variable {K : Type} [Add K] [Mul K] [OfNat K 0]
+
+/-- shared trunk input (one copy): the output is, for every function and every location, `outAt` -/
+theorem contract_shared (t0 : List (List (List K))) (br : List (List (List K))) :
+    contract [t0] br = .ok (br.map (fun bi => t0.map (fun tj => outAt tj bi))) := by
+  unfold contract
+  split
+  · rename_i h
+    match br, h with
+    | [b0], _ => simp [outRow]
+  · simp [outRow]
+
+/-- one trunk batch per function -/
+theorem contract_unique (tr : List (List (List (List K)))) (br : List (List (List K)))
+    (h : tr.length = br.length) :
+    contract tr br = .ok (List.zipWith (fun ti bi => ti.map (fun tj => outAt tj bi)) tr br) := by
+  unfold contract
+  simp [h, outRow]
+  rfl
+
+/-- index form: the entry for function `i`, location `j` -/
+theorem contract_shared_get (t0 : List (List (List K))) (br : List (List (List K)))
+    (i j : Nat) (hi : i < br.length) (hj : j < t0.length) :
+    ∃ out, contract [t0] br = .ok out ∧ ∃ (hi' : i < out.length) (hj' : j < out[i].length),
+      out[i][j] = outAt t0[j] br[i] := by
+  refine ⟨_, contract_shared t0 br, by simpa using hi, by simpa using hj, by simp⟩
+
+/-- batch independence: the output for (function i, location j) is what the DeepONet returns for
+    that function alone at that location alone -/
+theorem out_batch_independent (t0 : List (List (List K))) (br : List (List (List K)))
+    (i j : Nat) (hi : i < br.length) (hj : j < t0.length) :
+    contract [[t0[j]]] [br[i]] = .ok [[outAt t0[j] br[i]]] := by
+  rw [contract_shared]; rfl
+
+theorem outAt_get (tj bi : List (List K)) (c : Nat) (h1 : c < tj.length) (h2 : c < bi.length) :
+    (outAt tj bi)[c]'(by simp [outAt]; omega) = dot tj[c] bi[c] := by
+  simp [outAt]
+
+end
+
+/-! ## reshapes -/
+
+section
+variable {K : Type}
+
+theorem chunkN_succ (k n : Nat) (r : List K) (l : List K) (hr : r.length = k) :
+    chunkN k (n + 1) (r ++ l) = r :: chunkN k n l := by
+  simp only [chunkN, List.range_succ_eq_map, List.map_cons, List.map_map]
+  congr 1
+  · simp [hr]
+  · apply List.map_congr_left
+    intro c _
+    simp only [Function.comp]
+    have : (c + 1) * k = r.length + c * k := by rw [hr, Nat.add_mul, Nat.one_mul, Nat.add_comm]
+    rw [this, ← List.drop_drop]
+    simp
+
+/-- cutting the concatenation of rows of length `k` into chunks of length `k` gives the rows back -/
+theorem chunkN_flatten (k : Nat) : ∀ rows : List (List K), (∀ r ∈ rows, r.length = k) →
+    chunkN k rows.length rows.flatten = rows
+  | [], _ => by simp [chunkN]
+  | r :: rows, h => by
+    have hr : r.length = k := h r (by simp)
+    have ih := chunkN_flatten k rows (fun r' hr' => h r' (by simp [hr']))
+    simp only [List.flatten_cons, List.length_cons]
+    rw [chunkN_succ k rows.length r rows.flatten hr, ih]
+
+theorem length_flatten_uniform (k : Nat) : ∀ rows : List (List K), (∀ r ∈ rows, r.length = k) →
+    rows.flatten.length = rows.length * k
+  | [], _ => by simp
+  | r :: rows, h => by
+    have hr : r.length = k := h r (by simp)
+    have ih := length_flatten_uniform k rows (fun r' hr' => h r' (by simp [hr']))
+    simp [ih, hr, Nat.add_mul, Nat.add_comm]
+
+/-- `reshape(-1, k)` of a matrix whose rows already have length `k` respects the rows -/
+theorem rechunk_flatten (k : Nat) (hk : 0 < k) (rows : List (List K)) (h : ∀ r ∈ rows, r.length = k) :
+    rechunk rows.flatten k = .ok rows := by
+  unfold rechunk
+  have hl := length_flatten_uniform k rows h
+  have h1 : k ≠ 0 := by omega
+  have h2 : rows.flatten.length % k = 0 := by rw [hl]; exact Nat.mul_mod_left _ _
+  have h3 : rows.flatten.length / k = rows.length := by rw [hl]; exact Nat.mul_div_cancel _ hk
+  simp only [h1, if_false, h2, ne_eq, not_true_eq_false, h3]
+  rw [chunkN_flatten k rows h]
+
+theorem chunkN_flatten_self (k : Nat) : ∀ (cnt : Nat) (l : List K), l.length = cnt * k →
+    (chunkN k cnt l).flatten = l
+  | 0, l, h => by
+    have : l = [] := List.eq_nil_of_length_eq_zero (by simpa using h)
+    simp [chunkN, this]
+  | n + 1, l, h => by
+    have hk : k ≤ l.length := by rw [h, Nat.add_mul, Nat.one_mul]; omega
+    have ht : (l.take k).length = k := by simp [hk]
+    have hd : (l.drop k).length = n * k := by
+      simp only [List.length_drop, h, Nat.add_mul, Nat.one_mul]; omega
+    conv => lhs; rw [← List.take_append_drop k l]
+    rw [chunkN_succ k n _ _ ht, List.flatten_cons, chunkN_flatten_self k n _ hd, List.take_append_drop]
+
+/-- every feature is used exactly once and in order: flattening the split row gives the row back -/
+theorem splitRow_flatten (d neurons : Nat) (row : List K) (hlen : row.length = neurons) (hdvd : neurons % d = 0) :
+    (splitRow d neurons row).flatten = row := by
+  have hdm : d * (neurons / d) = neurons := Nat.mul_div_cancel' (Nat.dvd_of_mod_eq_zero hdvd)
+  exact chunkN_flatten_self (neurons / d) d row (by rw [hlen, hdm])
+
+theorem splitRow_index_lt (d neurons c k : Nat) (hc : c < d) (hk : k < neurons / d) (hdvd : neurons % d = 0) :
+    c * (neurons / d) + k < neurons := by
+  have hdm : d * (neurons / d) = neurons := Nat.mul_div_cancel' (Nat.dvd_of_mod_eq_zero hdvd)
+  calc c * (neurons / d) + k < c * (neurons / d) + neurons / d := by omega
+    _ = (c + 1) * (neurons / d) := by rw [Nat.add_mul, Nat.one_mul]
+    _ ≤ d * (neurons / d) := Nat.mul_le_mul_right _ hc
+    _ = neurons := hdm
+
+
+/-- `FCBranchNet.forward`: when every function is discretised by `inputDim` values the flattening
+    keeps one row per function -/
+theorem branchFlatten_rows (inputDim : Nat) (hk : 0 < inputDim) (batch : List (List (List K)))
+    (h : ∀ fn ∈ batch, fn.flatten.length = inputDim) :
+    branchFlatten batch inputDim = .ok (batch.map List.flatten) := by
+  unfold branchFlatten
+  apply rechunk_flatten inputDim hk
+  intro r hr
+  obtain ⟨fn, hfn, rfl⟩ := List.mem_map.1 hr
+  exact h fn hfn
+
+/-- with a wrong number of discretisation points the flat re-cut invents functions (mirrors the code) -/
+example : branchFlatten [[[1],[2],[3],[4]]] 2 = (.ok [[1,2],[3,4]] : Except String (List (List Nat))) := by decide
+
+/-- after `finalize` accepted the sizes, the reshape of a feature matrix splits every row on its own:
+    no feature of one function/location ever reaches another one -/
+theorem reshapeFeat_rows (d neurons : Nat) (hf : finalizeOk d neurons = true) (hn : 0 < neurons)
+    (rows : List (List K)) (h : ∀ r ∈ rows, r.length = neurons) :
+    reshapeFeat d neurons rows = .ok (rows.map (splitRow d neurons)) := by
+  simp only [finalizeOk, Bool.and_eq_true, bne_iff_ne, ne_eq, decide_eq_true_eq] at hf
+  have hdm : d * (neurons / d) = neurons := Nat.mul_div_cancel' (Nat.dvd_of_mod_eq_zero hf.2)
+  unfold reshapeFeat
+  have : finalizeOk d neurons = true := by simp [finalizeOk, hf]
+  simp only [this, Bool.not_true, Bool.false_eq_true, if_false, hdm]
+  rw [rechunk_flatten neurons hn rows h]
+  rfl
+
+/-- the index map of the reshape: entry `(c, k)` of the split row is feature `c * (neurons/d) + k`
+    (an index inside the row by `splitRow_index_lt`) -/
+theorem splitRow_get (d neurons : Nat) (row : List K) (c k : Nat) (hc : c < d) (hk : k < neurons / d) :
+    ((splitRow d neurons row)[c]?.bind (·[k]?)) = row[c * (neurons / d) + k]? := by
+  simp only [splitRow, chunkN]
+  rw [List.getElem?_map, List.getElem?_range hc]
+  simp only [Option.map_some, Option.bind_some]
+  rw [List.getElem?_take_of_lt hk, List.getElem?_drop]
+
+end
+
+/-- NEGATIVE result about the pinned snapshot (before the repair `5a45fb8` in /repo): with 3 neurons
+    and 2 output components the reshape `reshape(-1, 2, int(3/2))` turns the feature rows of TWO
+    functions into THREE rows; the second one mixes features of function 0 and function 1. -/
+theorem reshapeFeatOld_mixes_rows :
+    reshapeFeatOld 2 3 [[1, 2, 3], [4, 5, 6]] =
+      (.ok [[[1], [2]], [[3], [4]], [[5], [6]]] : Except String (List (List (List Nat)))) := by decide
+
+/-- after the repair the same sizes are rejected -/
+theorem reshapeFeat_rejects_nondivisible :
+    reshapeFeat 2 3 [[1, 2, 3], [4, 5, 6]] = (.error "err:neurons" : Except String (List (List (List Nat)))) := by
+  decide
+
+/-! ## the fast trunk path -/
+
+section
+variable {K : Type} [Add K] [Mul K] [OfNat K 0]
+
+/-- one fast layer on `n+1` copies of one input = the plain layer on these copies -/
+theorem fastLinear_eq_plain (L : Layer K) (n : Nat) (x : List (List K)) :
+    fastLinear L (.r3 (List.replicate (n + 1) x)) = plainLinear L (.r3 (List.replicate (n + 1) x)) := by
+  simp [fastLinear, plainLinear, T23.map, List.replicate_succ, List.map_replicate]
+
+/-- a rank-2 input is answered like the plain layer answers the input with a leading axis of length 1 -/
+theorem fastLinear_r2 (L : Layer K) (x : List (List K)) :
+    fastLinear L (.r2 x) = plainLinear L (.r3 [x]) := by
+  simp [fastLinear, plainLinear, T23.map]
+
+/-- the whole fast trunk network equals the plain network with the same weights on a shared input:
+    any depth, any widths, any activation -/
+theorem fastNet_eq_plainNet (act : K → K) : ∀ (layers : List (Layer K)) (n : Nat) (x : List (List K)),
+    fcNet fastLinear act layers (.r3 (List.replicate (n + 1) x)) =
+    fcNet plainLinear act layers (.r3 (List.replicate (n + 1) x))
+  | [], _, _ => by simp [fcNet]
+  | [l], n, x => by simp only [fcNet]; exact fastLinear_eq_plain l n x
+  | l :: l' :: ls, n, x => by
+    simp only [fcNet]
+    rw [fastLinear_eq_plain]
+    simp only [plainLinear, T23.map, List.map_replicate, bind, Except.bind]
+    exact fastNet_eq_plainNet act (l' :: ls) n _
+
+theorem fastNet_r2 (act : K → K) : ∀ (layers : List (Layer K)) (x : List (List K)),
+    fcNet fastLinear act layers (.r2 x) = fcNet plainLinear act layers (.r3 [x])
+  | [], _ => by simp [fcNet]
+  | [l], x => by simp only [fcNet]; exact fastLinear_r2 l x
+  | l :: l' :: ls, x => by
+    simp only [fcNet]
+    rw [fastLinear_r2]
+    simp only [plainLinear, T23.map, List.map_cons, List.map_nil, bind, Except.bind]
+    exact fastNet_eq_plainNet act (l' :: ls) 0 _
+
+/-- consequently the whole DeepONet with the fast trunk equals the one with the plain trunk -/
+theorem forward_fast_eq_plain (act : K → K) (d neurons : Nat) (trunk branch : List (Layer K)) (inputDim : Nat)
+    (n : Nat) (x : List (List K)) (fb : List (List (List K))) :
+    forward true act d neurons trunk branch inputDim (.r3 (List.replicate (n + 1) x)) fb =
+    forward false act d neurons trunk branch inputDim (.r3 (List.replicate (n + 1) x)) fb := by
+  simp only [forward, if_true, Bool.false_eq_true, if_false, fastNet_eq_plainNet]
+
+end
+
+/-- the precondition is needed: on copies that differ the fast layer answers with the first copy -/
+theorem fastLinear_ne_plain_unshared :
+    fastLinear (K := Int) ⟨[[1]], none⟩ (.r3 [[[1]], [[2]]]) = .ok (.r3 [[[1]], [[1]]]) ∧
+    plainLinear (K := Int) ⟨[[1]], none⟩ (.r3 [[[1]], [[2]]]) = .ok (.r3 [[[1]], [[2]]]) := by
+  constructor <;> rfl
+
+
+/-! ## algebra: inner products, the coded backward is the exact VJP -/
+
+section
+variable {K : Type} [CommRing K]
+
+theorem dot_nil_left (b : List K) : dot ([] : List K) b = 0 := by simp [dot, sumL]
+theorem dot_nil_right (a : List K) : dot a ([] : List K) = 0 := by simp [dot, sumL]
+theorem dot_cons (x y : K) (a b : List K) : dot (x :: a) (y :: b) = x * y + dot a b := by
+  simp [dot, sumL]
+
+theorem sumL_nil : sumL ([] : List K) = 0 := rfl
+theorem sumL_cons (a : K) (l : List K) : sumL (a :: l) = a + sumL l := rfl
+
+theorem dot_comm : ∀ (a b : List K), dot a b = dot b a
+  | [], b => by rw [dot_nil_left, dot_nil_right]
+  | _ :: _, [] => by rw [dot_nil_left, dot_nil_right]
+  | x :: a, y :: b => by rw [dot_cons, dot_cons, dot_comm a b, mul_comm]
+
+theorem dot_vadd_left : ∀ (a b c : List K), a.length = b.length →
+    dot (vadd a b) c = dot a c + dot b c
+  | [], [], c, _ => by simp [vadd, dot_nil_left]
+  | [], _ :: _, _, h => by simp at h
+  | _ :: _, [], _, h => by simp at h
+  | x :: a, y :: b, [], _ => by simp [dot_nil_right]
+  | x :: a, y :: b, z :: c, h => by
+    have h' : a.length = b.length := by simpa using h
+    have ih := dot_vadd_left a b c h'
+    simp only [vadd, List.zipWith_cons_cons] at ih ⊢
+    rw [dot_cons, dot_cons, dot_cons, ih]; ring
+
+theorem dot_vadd_right (g u v : List K) (h : u.length = v.length) :
+    dot g (vadd u v) = dot g u + dot g v := by
+  rw [dot_comm, dot_vadd_left u v g h, dot_comm u, dot_comm v]
+
+theorem dot_smul_left (k : K) : ∀ (a c : List K), dot (smul k a) c = k * dot a c
+  | [], c => by simp [smul, dot_nil_left]
+  | _ :: _, [] => by simp [dot_nil_right]
+  | x :: a, z :: c => by
+    have ih := dot_smul_left k a c
+    simp only [smul, List.map_cons] at ih ⊢
+    rw [dot_cons, dot_cons, ih]; ring
+
+theorem dot_replicate_zero : ∀ (n : Nat) (c : List K), dot (List.replicate n (0 : K)) c = 0
+  | 0, c => by simp [dot_nil_left]
+  | n + 1, [] => by simp [dot_nil_right]
+  | n + 1, z :: c => by rw [List.replicate_succ, dot_cons, dot_replicate_zero n c]; ring
+
+theorem vadd_length (a b : List K) : (vadd a b).length = min a.length b.length := by
+  simp [vadd]
+
+theorem rowTimesW_length (nin : Nat) : ∀ (W : List (List K)) (g : List K), (∀ w ∈ W, w.length = nin) →
+    (rowTimesW nin W g).length = nin
+  | [], g, _ => by simp [rowTimesW]
+  | _ :: _, [], _ => by simp [rowTimesW]
+  | w :: W, go :: g, h => by
+    have ih := rowTimesW_length nin W g (fun w' hw' => h w' (by simp [hw']))
+    have hw : w.length = nin := h w (by simp)
+    simp only [rowTimesW, List.zipWith_cons_cons, List.foldr_cons] at ih ⊢
+    rw [vadd_length, ih]; simp [smul, hw]
+
+/-- `⟨g, W x⟩ = ⟨gᵀ W, x⟩` -/
+theorem adjoint (nin : Nat) (x : List K) : ∀ (W : List (List K)) (g : List K), (∀ w ∈ W, w.length = nin) →
+    dot g (W.map (fun w => dot x w)) = dot x (rowTimesW nin W g)
+  | [], g, _ => by simp [rowTimesW, dot_nil_right, dot_comm x, dot_replicate_zero]
+  | _ :: _, [], _ => by simp [rowTimesW, dot_nil_left, dot_comm x, dot_replicate_zero]
+  | w :: W, go :: g, h => by
+    have hW : ∀ w' ∈ W, w'.length = nin := fun w' hw' => h w' (by simp [hw'])
+    have ih := adjoint nin x W g hW
+    have hl := rowTimesW_length nin W g hW
+    have hw : w.length = nin := h w (by simp)
+    simp only [rowTimesW, List.zipWith_cons_cons, List.foldr_cons, List.map_cons] at ih hl ⊢
+    rw [dot_cons, ih, dot_vadd_right _ _ _ (by simp [smul, hw, hl]), dot_comm x (smul go w), dot_smul_left,
+      dot_comm w x]
+
+/-- the linear part `x ↦ W x` -/
+def linPart (W : List (List K)) (x : List K) : List K := W.map (fun w => dot x w)
+
+theorem linPart_length (W : List (List K)) (x : List K) : (linPart W x).length = W.length := by simp [linPart]
+
+theorem linPart_vadd (x dx : List K) (h : x.length = dx.length) : ∀ W : List (List K),
+    linPart W (vadd x dx) = vadd (linPart W x) (linPart W dx)
+  | [] => by simp [linPart, vadd]
+  | w :: W => by
+    have ih := linPart_vadd x dx h W
+    simp only [linPart, vadd, List.map_cons, List.zipWith_cons_cons] at ih ⊢
+    rw [ih]; congr 1
+    exact dot_vadd_left x dx w h
+
+theorem affineRow_eq (L : Layer K) (x : List K) :
+    affineRow L x = match L.b with | some b => vadd (linPart L.W x) b | none => linPart L.W x := by
+  cases L with
+  | mk W b => cases b <;> rfl
+
+/-- the layer is well shaped: weight rows of length `nin`, bias (if any) of length `W.length` -/
+def Layer.WF (L : Layer K) (nin : Nat) : Prop :=
+  (∀ w ∈ L.W, w.length = nin) ∧ ∀ b, L.b = some b → b.length = L.W.length
+
+/-- row form of the input VJP -/
+theorem vjp_input_row (L : Layer K) (nin : Nat) (hL : L.WF nin) (g x dx : List K) (hx : x.length = dx.length) :
+    dot g (affineRow L (vadd x dx)) = dot g (affineRow L x) + dot (rowTimesW nin L.W g) dx := by
+  have hadj : dot g (linPart L.W dx) = dot (rowTimesW nin L.W g) dx := by
+    rw [linPart, adjoint nin dx L.W g hL.1, dot_comm]
+  rw [affineRow_eq, affineRow_eq, linPart_vadd x dx hx]
+  cases hb : L.b with
+  | none =>
+    simp only []
+    rw [dot_vadd_right _ _ _ (by simp [linPart_length]), hadj]
+  | some b =>
+    simp only []
+    have hbl := hL.2 b hb
+    rw [dot_vadd_right _ _ _ (by simp [vadd_length, linPart_length, hbl]),
+      dot_vadd_right _ _ _ (by simp [linPart_length]),
+      dot_vadd_right _ _ _ (by simp [linPart_length, hbl]), hadj]
+    ring
+
+/-! ### lifting row identities to rank 2 and rank 3 -/
+
+theorem sumL_zip3 {α β γ : Type} (F : α → β → γ → K) (P : α → β → K) (Q : α → γ → K) (R : β → γ → Prop)
+    (hF : ∀ a b c, R b c → F a b c = P a b + Q a c) :
+    ∀ (G : List α) (X : List β) (D : List γ), X.length = D.length → (∀ p ∈ X.zip D, R p.1 p.2) →
+      sumL (List.zipWith (fun a (p : β × γ) => F a p.1 p.2) G (X.zip D)) =
+        sumL (List.zipWith P G X) + sumL (List.zipWith Q G D)
+  | [], _, _, _, _ => by simp [sumL_nil]
+  | _ :: _, [], [], _, _ => by simp [sumL_nil]
+  | _ :: _, [], _ :: _, h, _ => by simp at h
+  | _ :: _, _ :: _, [], h, _ => by simp at h
+  | a :: G, b :: X, c :: D, h, hR => by
+    have h' : X.length = D.length := by simpa using h
+    have ih := sumL_zip3 F P Q R hF G X D h' (fun p hp => hR p (by simp [hp]))
+    simp only [List.zip_cons_cons, List.zipWith_cons_cons, sumL_cons]
+    rw [ih, hF a b c (hR (b, c) (by simp))]; ring
+
+/-- two matrices of one shape -/
+def SameShape (X D : List (List K)) : Prop := X.length = D.length ∧ ∀ p ∈ X.zip D, p.1.length = p.2.length
+
+theorem zipWith_as_map_zip {α β γ : Type} (f : α → β → γ) : ∀ (X : List α) (D : List β),
+    List.zipWith f X D = (X.zip D).map (fun p => f p.1 p.2)
+  | [], _ => by simp
+  | _ :: _, [] => by simp
+  | x :: X, d :: D => by simp [zipWith_as_map_zip f X D]
+
+theorem madd_map (f : List K → List K) (X D : List (List K)) :
+    (madd X D).map f = (X.zip D).map (fun p => f (vadd p.1 p.2)) := by
+  simp [madd, zipWith_as_map_zip vadd, List.map_map, Function.comp_def]
+
+theorem vjp_input2 (L : Layer K) (nin : Nat) (hL : L.WF nin) (G X D : List (List K)) (h : SameShape X D) :
+    dot2 G ((madd X D).map (affineRow L)) =
+      dot2 G (X.map (affineRow L)) + dot2 (G.map (rowTimesW nin L.W)) D := by
+  have := sumL_zip3 (fun g x dx => dot g (affineRow L (vadd x dx))) (fun g x => dot g (affineRow L x))
+    (fun g dx => dot (rowTimesW nin L.W g) dx) (fun x dx => x.length = dx.length)
+    (fun g x dx hx => vjp_input_row L nin hL g x dx hx) G X D h.1 h.2
+  simp only [dot2, madd_map, List.zipWith_map_right, List.zipWith_map_left]
+  exact this
+
+/-- rank-3 output of the plain layer -/
+def layerOut (L : Layer K) (X : List (List (List K))) : List (List (List K)) :=
+  X.map (·.map (affineRow L))
+
+/-- elementwise sum of two rank-3 tensors -/
+def tadd (X D : List (List (List K))) : List (List (List K)) := List.zipWith madd X D
+
+def SameShape3 (X D : List (List (List K))) : Prop :=
+  X.length = D.length ∧ ∀ p ∈ X.zip D, SameShape p.1 p.2
+
+/-- **vjp_input**: `grad_input = grad_output.matmul(weight)` is exactly the vector-Jacobian product of
+    the layer w.r.t. its input: for every perturbation `D` of the input (copy by copy)
+    `⟨g, layer (X + D)⟩ = ⟨g, layer X⟩ + ⟨gradInput g, D⟩`. -/
+theorem vjp_input (L : Layer K) (nin : Nat) (hL : L.WF nin) (g X D : List (List (List K)))
+    (h : SameShape3 X D) :
+    dot3 g (layerOut L (tadd X D)) = dot3 g (layerOut L X) + dot3 (gradInput nin L.W g) D := by
+  have := sumL_zip3 (fun G X D => dot2 G ((madd X D).map (affineRow L))) (fun G X => dot2 G (X.map (affineRow L)))
+    (fun G D => dot2 (G.map (rowTimesW nin L.W)) D) SameShape
+    (fun G X D hx => vjp_input2 L nin hL G X D hx) g X D h.1 h.2
+  simp only [dot3, layerOut, tadd, gradInput, List.zipWith_map_right, List.zipWith_map_left,
+    zipWith_as_map_zip madd, List.map_map, Function.comp_def] at this ⊢
+  exact this
+
+
+/-! ### weight and bias -/
+
+theorem madd_length (A B : List (List K)) : (madd A B).length = min A.length B.length := by simp [madd]
+
+theorem linPart_madd (x : List K) : ∀ (W dW : List (List K)), SameShape W dW →
+    linPart (madd W dW) x = vadd (linPart W x) (linPart dW x)
+  | [], [], _ => by simp [linPart, madd, vadd]
+  | [], _ :: _, h => by simp [SameShape] at h
+  | _ :: _, [], h => by simp [SameShape] at h
+  | w :: W, dw :: dW, h => by
+    have h' : SameShape W dW := ⟨by simpa using h.1, fun p hp => h.2 p (by simp [hp])⟩
+    have hw : w.length = dw.length := h.2 (w, dw) (by simp)
+    have ih := linPart_madd x W dW h'
+    simp only [linPart, madd, vadd, List.zipWith_cons_cons, List.map_cons] at ih ⊢
+    rw [ih]; congr 1
+    exact dot_vadd_right x w dw hw
+
+/-- outer product `g ⊗ x` (one row's contribution to `gᵀ x`) -/
+def outer (g x : List K) : List (List K) := g.map (fun go => smul go x)
+
+theorem dot2_nil_left (B : List (List K)) : dot2 ([] : List (List K)) B = 0 := by simp [dot2, sumL_nil]
+theorem dot2_nil_right (A : List (List K)) : dot2 A ([] : List (List K)) = 0 := by simp [dot2, sumL_nil]
+theorem dot2_cons (a b : List K) (A B : List (List K)) : dot2 (a :: A) (b :: B) = dot a b + dot2 A B := by
+  simp [dot2, sumL_cons]
+
+theorem dot_linPart_eq_outer (x : List K) : ∀ (g : List K) (dW : List (List K)),
+    dot g (linPart dW x) = dot2 (outer g x) dW
+  | [], _ => by simp [outer, dot_nil_left, dot2_nil_left]
+  | _ :: _, [] => by simp [linPart, dot_nil_right, dot2_nil_right]
+  | go :: g, dw :: dW => by
+    have ih := dot_linPart_eq_outer x g dW
+    simp only [linPart, outer, List.map_cons] at ih ⊢
+    rw [dot_cons, dot2_cons, ih, dot_smul_left]
+
+/-- row form of the weight VJP -/
+theorem vjp_weight_row (W dW : List (List K)) (b : Option (List K)) (hS : SameShape W dW)
+    (hb : ∀ b', b = some b' → b'.length = W.length) (g x : List K) :
+    dot g (affineRow ⟨madd W dW, b⟩ x) = dot g (affineRow ⟨W, b⟩ x) + dot2 (outer g x) dW := by
+  rw [affineRow_eq, affineRow_eq, ← dot_linPart_eq_outer]
+  simp only []
+  rw [linPart_madd x W dW hS]
+  cases b with
+  | none =>
+    simp only []
+    rw [dot_vadd_right _ _ _ (by simp [linPart_length, hS.1])]
+  | some b' =>
+    simp only []
+    have hbl := hb b' rfl
+    rw [dot_vadd_right _ _ _ (by simp [vadd_length, linPart_length, hbl, hS.1]),
+      dot_vadd_right _ _ _ (by simp [linPart_length, hS.1]),
+      dot_vadd_right _ _ _ (by simp [linPart_length, hbl])]
+    ring
+
+/-- a matrix with `r` rows of length `c` -/
+def Shape (r c : Nat) (M : List (List K)) : Prop := M.length = r ∧ ∀ row ∈ M, row.length = c
+
+theorem shape_zero (r c : Nat) : Shape r c (List.replicate r (List.replicate c (0 : K))) := by
+  refine ⟨by simp, fun row h => ?_⟩
+  rw [List.eq_of_mem_replicate h]; simp
+
+theorem sameShape_of_shape {r c : Nat} {A B : List (List K)} (hA : Shape r c A) (hB : Shape r c B) :
+    SameShape A B := by
+  refine ⟨by rw [hA.1, hB.1], fun p hp => ?_⟩
+  have := List.of_mem_zip hp
+  rw [hA.2 _ this.1, hB.2 _ this.2]
+
+theorem shape_madd {r c : Nat} {A B : List (List K)} (hA : Shape r c A) (hB : Shape r c B) :
+    Shape r c (madd A B) := by
+  refine ⟨by rw [madd_length, hA.1, hB.1, Nat.min_self], fun row h => ?_⟩
+  simp only [madd, zipWith_as_map_zip, List.mem_map] at h
+  obtain ⟨p, hp, rfl⟩ := h
+  have := List.of_mem_zip hp
+  rw [vadd_length, hA.2 _ this.1, hB.2 _ this.2, Nat.min_self]
+
+theorem shape_outer (g x : List K) : Shape g.length x.length (outer g x) := by
+  refine ⟨by simp [outer], fun row h => ?_⟩
+  simp only [outer, List.mem_map] at h
+  obtain ⟨go, _, rfl⟩ := h
+  simp [smul]
+
+theorem dot2_madd_left : ∀ (A B C : List (List K)), SameShape A B →
+    dot2 (madd A B) C = dot2 A C + dot2 B C
+  | [], [], C, _ => by simp [madd, dot2_nil_left]
+  | [], _ :: _, _, h => by simp [SameShape] at h
+  | _ :: _, [], _, h => by simp [SameShape] at h
+  | a :: A, b :: B, [], _ => by simp [dot2_nil_right]
+  | a :: A, b :: B, c :: C, h => by
+    have h' : SameShape A B := ⟨by simpa using h.1, fun p hp => h.2 p (by simp [hp])⟩
+    have hab : a.length = b.length := h.2 (a, b) (by simp)
+    have ih := dot2_madd_left A B C h'
+    simp only [madd, List.zipWith_cons_cons] at ih ⊢
+    rw [dot2_cons, dot2_cons, dot2_cons, ih, dot_vadd_left a b c hab]; ring
+
+theorem dot2_zero (r c : Nat) : ∀ (C : List (List K)), dot2 (List.replicate r (List.replicate c (0 : K))) C = 0 := by
+  induction r with
+  | zero => intro C; simp [dot2_nil_left]
+  | succ r ih =>
+    intro C
+    cases C with
+    | nil => simp [dot2_nil_right]
+    | cons c' C => rw [List.replicate_succ, dot2_cons, ih C, dot_replicate_zero]; ring
+
+/-- summing matrices of one shape commutes with the pairing -/
+theorem dot2_foldr_madd (r c : Nat) (C : List (List K)) : ∀ (Ms : List (List (List K))),
+    (∀ M ∈ Ms, Shape r c M) →
+    Shape r c (Ms.foldr madd (List.replicate r (List.replicate c (0 : K)))) ∧
+    dot2 (Ms.foldr madd (List.replicate r (List.replicate c (0 : K)))) C = sumL (Ms.map (fun M => dot2 M C))
+  | [], _ => by simp [shape_zero, dot2_zero, sumL_nil]
+  | M :: Ms, h => by
+    have ih := dot2_foldr_madd r c C Ms (fun M' hM' => h M' (by simp [hM']))
+    have hM := h M (by simp)
+    refine ⟨shape_madd hM ih.1, ?_⟩
+    simp only [List.foldr_cons, List.map_cons, sumL_cons]
+    rw [dot2_madd_left _ _ _ (sameShape_of_shape hM ih.1), ih.2]
+
+theorem sumL_zipWith_as_map {α β : Type} (f : α → β → K) (X : List α) (D : List β) :
+    sumL (List.zipWith f X D) = sumL ((X.zip D).map (fun p => f p.1 p.2)) := by
+  rw [zipWith_as_map_zip]
+
+/-- one copy: `⟨g_c, layer_{W+dW} x⟩ = ⟨g_c, layer_W x⟩ + ⟨g_cᵀ x, dW⟩` -/
+theorem vjp_weight2 (nout nin : Nat) (W dW : List (List K)) (b : Option (List K)) (hS : SameShape W dW)
+    (hb : ∀ b', b = some b' → b'.length = W.length)
+    (gc x : List (List K)) (hg : ∀ gr ∈ gc, gr.length = nout) (hx : ∀ xr ∈ x, xr.length = nin) :
+    dot2 gc (x.map (affineRow ⟨madd W dW, b⟩)) =
+      dot2 gc (x.map (affineRow ⟨W, b⟩)) + dot2 (gTx nout nin gc x) dW := by
+  have hsh : ∀ M ∈ List.zipWith (fun gr xr => gr.map (fun go => smul go xr)) gc x, Shape nout nin M := by
+    intro M hM
+    simp only [zipWith_as_map_zip, List.mem_map] at hM
+    obtain ⟨p, hp, rfl⟩ := hM
+    have := List.of_mem_zip hp
+    have h1 := shape_outer p.1 p.2
+    rw [hg _ this.1, hx _ this.2] at h1
+    exact h1
+  rw [gTx, (dot2_foldr_madd nout nin dW _ hsh).2]
+  simp only [dot2, List.zipWith_map_right, List.map_map, Function.comp_def]
+  -- row by row
+  have key : ∀ (gc x : List (List K)),
+      sumL (List.zipWith (fun a b_1 => dot a (affineRow ⟨madd W dW, b⟩ b_1)) gc x) =
+      sumL (List.zipWith (fun a b_1 => dot a (affineRow ⟨W, b⟩ b_1)) gc x) +
+      sumL ((List.zipWith (fun gr xr => gr.map (fun go => smul go xr)) gc x).map
+        (fun M => sumL (List.zipWith dot M dW))) := by
+    intro gc
+    induction gc with
+    | nil => intro x; simp [sumL_nil]
+    | cons gr gc ih =>
+      intro x
+      cases x with
+      | nil => simp [sumL_nil]
+      | cons xr x =>
+        simp only [List.zipWith_cons_cons, List.map_cons, sumL_cons]
+        rw [ih x, vjp_weight_row W dW b hS hb gr xr]
+        simp only [dot2, outer]; ring
+  exact key gc x
+
+/-- **vjp_weight**: `grad_weight = Σ_copies grad_outputᵀ · input₀` is exactly the vector-Jacobian
+    product of the layer (applied to copies of one input `x`) w.r.t. the weight. -/
+theorem vjp_weight (nout nin : Nat) (W dW : List (List K)) (b : Option (List K)) (hS : SameShape W dW)
+    (hb : ∀ b', b = some b' → b'.length = W.length)
+    (g : List (List (List K))) (x : List (List K))
+    (hg : ∀ gc ∈ g, ∀ gr ∈ gc, gr.length = nout) (hx : ∀ xr ∈ x, xr.length = nin) :
+    dot3 g (layerOut ⟨madd W dW, b⟩ (List.replicate g.length x)) =
+      dot3 g (layerOut ⟨W, b⟩ (List.replicate g.length x)) + dot2 (gradWeight nout nin x g) dW := by
+  have hsh : ∀ M ∈ g.map (fun gc => gTx nout nin gc x), Shape nout nin M := by
+    intro M hM
+    obtain ⟨gc, hgc, rfl⟩ := List.mem_map.1 hM
+    refine (dot2_foldr_madd nout nin [] _ ?_).1
+    intro M hM
+    simp only [zipWith_as_map_zip, List.mem_map] at hM
+    obtain ⟨p, hp, rfl⟩ := hM
+    have := List.of_mem_zip hp
+    have h1 := shape_outer p.1 p.2
+    rw [hg gc hgc _ this.1, hx _ this.2] at h1
+    exact h1
+  rw [gradWeight, (dot2_foldr_madd nout nin dW _ hsh).2]
+  simp only [dot3, layerOut, List.map_replicate, List.map_map, Function.comp_def]
+  have key : ∀ (g : List (List (List K))) (n : Nat), (∀ gc ∈ g, ∀ gr ∈ gc, gr.length = nout) →
+      sumL (List.zipWith dot2 g (List.replicate n (x.map (affineRow ⟨madd W dW, b⟩)))) =
+      sumL (List.zipWith dot2 g (List.replicate n (x.map (affineRow ⟨W, b⟩)))) +
+      sumL (g.take n |>.map (fun gc => dot2 (gTx nout nin gc x) dW)) := by
+    intro g
+    induction g with
+    | nil => intro n _; simp [sumL_nil]
+    | cons gc g ih =>
+      intro n hg
+      cases n with
+      | zero => simp [sumL_nil]
+      | succ n =>
+        simp only [List.replicate_succ, List.zipWith_cons_cons, sumL_cons, List.take_succ_cons, List.map_cons]
+        rw [ih n (fun gc' h' => hg gc' (by simp [h'])),
+          vjp_weight2 nout nin W dW b hS hb gc x (hg gc (by simp)) hx]
+        ring
+  have := key g g.length hg
+  rw [List.take_length] at this
+  exact this
+
+theorem dot_foldr_vadd (n : Nat) (c : List K) : ∀ (Vs : List (List K)), (∀ v ∈ Vs, v.length = n) →
+    (Vs.foldr vadd (List.replicate n (0 : K))).length = n ∧
+    dot (Vs.foldr vadd (List.replicate n (0 : K))) c = sumL (Vs.map (fun v => dot v c))
+  | [], _ => by simp [dot_replicate_zero, sumL_nil]
+  | v :: Vs, h => by
+    have ih := dot_foldr_vadd n c Vs (fun v' hv' => h v' (by simp [hv']))
+    have hv := h v (by simp)
+    refine ⟨by simp only [List.foldr_cons]; rw [vadd_length, hv, ih.1, Nat.min_self], ?_⟩
+    simp only [List.foldr_cons, List.map_cons, sumL_cons]
+    rw [dot_vadd_left _ _ _ (by rw [hv, ih.1]), ih.2]
+
+/-- row form of the bias VJP -/
+theorem vjp_bias_row (W : List (List K)) (b db : List K) (hb : b.length = W.length) (hdb : db.length = W.length)
+    (g x : List K) :
+    dot g (affineRow ⟨W, some (vadd b db)⟩ x) = dot g (affineRow ⟨W, some b⟩ x) + dot g db := by
+  rw [affineRow_eq, affineRow_eq]
+  simp only []
+  rw [dot_vadd_right _ _ _ (by simp [vadd_length, linPart_length, hb, hdb]),
+    dot_vadd_right _ _ _ (by rw [hb, hdb]),
+    dot_vadd_right _ _ _ (by simp [linPart_length, hb])]
+  ring
+
+theorem sumL_append (a b : List K) : sumL (a ++ b) = sumL a + sumL b := by
+  induction a with
+  | nil => simp [sumL_nil]
+  | cons x a ih => simp only [List.cons_append, sumL_cons, ih]; ring
+
+/-- **vjp_bias**: `grad_bias = grad_output.reshape(-1, out).sum(0)` is exactly the vector-Jacobian
+    product of the layer w.r.t. the bias. -/
+theorem vjp_bias (nout : Nat) (W : List (List K)) (b db : List K) (hW : W.length = nout)
+    (hb : b.length = nout) (hdb : db.length = nout)
+    (g : List (List (List K))) (x : List (List K))
+    (hg : ∀ gc ∈ g, gc.length = x.length ∧ ∀ gr ∈ gc, gr.length = nout) :
+    dot3 g (layerOut ⟨W, some (vadd b db)⟩ (List.replicate g.length x)) =
+      dot3 g (layerOut ⟨W, some b⟩ (List.replicate g.length x)) + dot (gradBias nout g) db := by
+  have hfl : ∀ v ∈ g.flatten, v.length = nout := by
+    intro v hv
+    obtain ⟨gc, hgc, hv'⟩ := List.mem_flatten.1 hv
+    exact (hg gc hgc).2 v hv'
+  rw [gradBias, (dot_foldr_vadd nout db _ hfl).2]
+  simp only [dot3, layerOut, List.map_replicate]
+  have row : ∀ (gc x : List (List K)), gc.length = x.length →
+      dot2 gc (x.map (affineRow ⟨W, some (vadd b db)⟩)) =
+      dot2 gc (x.map (affineRow ⟨W, some b⟩)) + sumL (gc.map (fun v => dot v db)) := by
+    intro gc
+    induction gc with
+    | nil => intro x _; simp [dot2_nil_left, sumL_nil]
+    | cons gr gc ih =>
+      intro x hl
+      cases x with
+      | nil => simp at hl
+      | cons xr x =>
+        simp only [List.map_cons, dot2_cons, sumL_cons]
+        rw [ih x (by simpa using hl), vjp_bias_row W b db (by rw [hb, hW]) (by rw [hdb, hW])]
+        ring
+  have key : ∀ (g : List (List (List K))) (n : Nat), (∀ gc ∈ g, gc.length = x.length) →
+      sumL (List.zipWith dot2 g (List.replicate n (x.map (affineRow ⟨W, some (vadd b db)⟩)))) =
+      sumL (List.zipWith dot2 g (List.replicate n (x.map (affineRow ⟨W, some b⟩)))) +
+      sumL ((g.take n).flatten.map (fun v => dot v db)) := by
+    intro g
+    induction g with
+    | nil => intro n _; simp [sumL_nil]
+    | cons gc g ih =>
+      intro n hg
+      cases n with
+      | zero => simp [sumL_nil]
+      | succ n =>
+        simp only [List.replicate_succ, List.zipWith_cons_cons, sumL_cons, List.take_succ_cons,
+          List.flatten_cons, List.map_append, sumL_append]
+        rw [ih n (fun gc' h' => hg gc' (by simp [h'])), row gc x (hg gc (by simp))]
+        ring
+  have := key g g.length (fun gc h => (hg gc h).1)
+  rw [List.take_length] at this
+  exact this
+
+/-- on copies of one input the coded weight gradient (first copy only) is the gradient of
+    `torch.nn.Linear` (every copy with its own input) -/
+theorem gradWeight_eq_plain (nout nin : Nat) (x : List (List K)) (g : List (List (List K))) :
+    gradWeight nout nin x g = gradWeightPlain nout nin (List.replicate g.length x) g := by
+  simp only [gradWeight, gradWeightPlain]
+  congr 1
+  exact (zipWith_replicate_right (fun gc xc => gTx nout nin gc xc) x g).symm
+
+theorem sumL_eq_sum (l : List K) : sumL l = l.sum := by
+  induction l with
+  | nil => rfl
+  | cons a l ih => simp [sumL, List.sum_cons] at ih ⊢; rw [← ih]
+
+/-- the vector inner product as an indexed sum -/
+theorem dot_eq_sum : ∀ (a b : List K) (h : a.length = b.length),
+    dot a b = ∑ k : Fin a.length, a[k] * b[k.1]'(h ▸ k.2)
+  | [], b, _ => by simp [dot_nil_left]
+  | x :: a, [], h => by simp at h
+  | x :: a, y :: b, h => by
+    have h' : a.length = b.length := by simpa using h
+    rw [dot_cons, dot_eq_sum a b h']
+    simp [Fin.sum_univ_succ]
+
+/-- **out_spec** (shared trunk input). -/
+theorem out_spec (t0 : List (List (List K))) (br : List (List (List K))) (i j c : Nat)
+    (hi : i < br.length) (hj : j < t0.length) (hc : c < t0[j].length) (hc' : c < br[i].length)
+    (hk : t0[j][c].length = br[i][c].length) :
+    ∃ out, contract [t0] br = .ok out ∧
+      ((out[i]?.bind (·[j]?)).bind (·[c]?)) =
+        some (∑ k : Fin t0[j][c].length, t0[j][c][k] * br[i][c][k.1]'(by have := k.2; omega)) := by
+  refine ⟨_, contract_shared t0 br, ?_⟩
+  simp only [List.getElem?_map, List.getElem?_eq_getElem hi, List.getElem?_eq_getElem hj, Option.map_some,
+    Option.bind_some, outAt]
+  rw [List.getElem?_zipWith, List.getElem?_eq_getElem hc, List.getElem?_eq_getElem hc']
+  simp only [Option.some.injEq]
+  exact dot_eq_sum _ _ hk
+
+/-! ### second order -/
+
+theorem sumL_zipWith_swap {α β : Type} (F : α → β → K) (F' : β → α → K) (h : ∀ a b, F a b = F' b a) :
+    ∀ (A : List α) (B : List β), sumL (List.zipWith F A B) = sumL (List.zipWith F' B A)
+  | [], _ => by simp [sumL_nil]
+  | _ :: _, [] => by simp [sumL_nil]
+  | a :: A, b :: B => by
+    simp only [List.zipWith_cons_cons, sumL_cons]
+    rw [sumL_zipWith_swap F F' h A B, h a b]
+
+/-- **second order**: the coded `grad_input` is linear in `grad_output` and its adjoint is the
+    bias-free plain layer, `⟨v, grad_output · W⟩ = ⟨grad_output, v · Wᵀ⟩`: differentiating the backward
+    of the fast layer w.r.t. `grad_output` (what autograd does for second input derivatives) therefore
+    yields exactly what it yields for `torch.nn.Linear` — one more plain linear map with the same weight. -/
+theorem gradInput_adjoint (nin : Nat) (W : List (List K)) (hW : ∀ w ∈ W, w.length = nin)
+    (v g : List (List (List K))) :
+    dot3 v (gradInput nin W g) = dot3 g (layerOut ⟨W, none⟩ v) := by
+  have row : ∀ (vr gr : List K), dot vr (rowTimesW nin W gr) = dot gr (affineRow ⟨W, none⟩ vr) := by
+    intro vr gr
+    rw [affineRow_eq]; simp only []
+    rw [linPart, adjoint nin vr W gr hW]
+  have r2 : ∀ (vc gc : List (List K)),
+      dot2 vc (gc.map (rowTimesW nin W)) = dot2 gc (vc.map (affineRow ⟨W, none⟩)) := by
+    intro vc gc
+    simp only [dot2, List.zipWith_map_right]
+    exact sumL_zipWith_swap _ _ row vc gc
+  simp only [dot3, gradInput, layerOut, List.zipWith_map_right]
+  exact sumL_zipWith_swap _ _ r2 v g
+
+end
+
+/-! ## non-vacuity: concrete, non-trivial data meeting the hypotheses of the theorems above -/
+
+section Examples
+
+private def L1 : Layer Int := ⟨[[1, 2], [0, -1], [3, 1]], some [1, 0, -2]⟩
+private def L2 : Layer Int := ⟨[[1, -1, 2], [2, 0, 1]], some [0, 5]⟩
+private def x0 : List (List Int) := [[1, 2], [-1, 3]]
+private def g0 : List (List (List Int)) := [[[1, 0, 2], [0, 1, -1]], [[2, 1, 0], [1, 1, 1]]]
+private def D0 : List (List (List Int)) := [[[1, 0], [0, 1]], [[2, -1], [1, 1]]]
+private def dW0 : List (List Int) := [[1, 0], [2, 1], [0, -1]]
+
+private theorem L1_wf : L1.WF 2 := by
+  refine ⟨by decide, ?_⟩
+  intro b hb
+  cases hb
+  rfl
+
+/-- `out_spec`, `contract_shared`: 2 functions, 2 locations, 2 components, 2 neurons each -/
+example : contract [[[[1, 2], [3, 4]], [[5, 6], [7, 8]]]] [[[1, 0], [0, 1]], [[2, 1], [1, 2]]] =
+    (.ok [[[1, 4], [5, 8]], [[4, 11], [16, 23]]] : Except String (List (List (List Int)))) := by decide
+
+/-- `contract_unique`: one trunk batch per function -/
+example : contract [[[[1, 2], [3, 4]]], [[[5, 6], [7, 8]]]] [[[1, 0], [0, 1]], [[2, 1], [1, 2]]] =
+    (.ok [[[1, 4]], [[16, 23]]] : Except String (List (List (List Int)))) := by decide
+
+/-- `out_batch_independent` instantiated: function 1 alone at location 0 alone -/
+example : contract [[[[1, 2], [3, 4]]]] [[[2, 1], [1, 2]]] =
+    (.ok [[[4, 11]]] : Except String (List (List (List Int)))) := by decide
+
+/-- `reshapeFeat_rows`, `rechunk_flatten`: the hypotheses are satisfiable and the rows stay apart -/
+example : finalizeOk 2 4 = true ∧
+    reshapeFeat 2 4 [[1, 2, 3, 4], [5, 6, 7, 8]] =
+      (.ok [[[1, 2], [3, 4]], [[5, 6], [7, 8]]] : Except String (List (List (List Nat)))) := by decide
+
+/-- `splitRow_get`, `splitRow_flatten`: 6 neurons, 3 components: entry (1, 1) is feature 1*2+1 = 3 -/
+example : ((splitRow 3 6 [10, 11, 12, 13, 14, 15])[1]?.bind (·[1]?)) = some 13 ∧
+    (splitRow 3 6 [10, 11, 12, 13, 14, 15]).flatten = [10, 11, 12, 13, 14, 15] := by decide
+
+/-- `branchFlatten_rows`: 2 functions, 2 points, 2 function components -/
+example : branchFlatten [[[1, 2], [3, 4]], [[5, 6], [7, 8]]] 4 =
+    (.ok [[1, 2, 3, 4], [5, 6, 7, 8]] : Except String (List (List Nat))) := by decide
+
+/-- `meshgrid_eq`, `functionSet_rows`: 2 parameter rows, 3 points -/
+example : meshgrid [[1, 2], [3, 4]] [[10], [20], [30]] =
+    [[[1, 2, 10], [1, 2, 20], [1, 2, 30]], [[3, 4, 10], [3, 4, 20], [3, 4, 30]]] := by decide
+
+/-- `collection_rows`: two sets with 1 and 2 functions present 3 functions, in this order -/
+example : batchOfCollection [((fun v => [v.sum]), [[1]]), ((fun v => [2 * v.sum]), [[2], [3]])] [[10], [20]] =
+    [[[11], [21]], [[24], [44]], [[26], [46]]] := by decide
+
+/-- `fastNet_eq_plainNet`, `fastNet_r2`: a two-layer network with a non-linear activation -/
+example : fcNet fastLinear (fun z => z * z) [L1, L2] (.r3 (List.replicate 2 x0)) =
+      .ok (.r3 [[[50, 86], [35, 81]], [[50, 86], [35, 81]]]) ∧
+    fcNet plainLinear (fun z => z * z) [L1, L2] (.r3 (List.replicate 2 x0)) =
+      .ok (.r3 [[[50, 86], [35, 81]], [[50, 86], [35, 81]]]) ∧
+    fcNet fastLinear (fun z => z * z) [L1, L2] (.r2 x0) = .ok (.r3 [[[50, 86], [35, 81]]]) := by
+  refine ⟨rfl, rfl, rfl⟩
+
+/-- `forward_fast_eq_plain`: a whole DeepONet, 2 functions (different outputs), 2 locations -/
+example : forward true (fun z => z * z) 1 2 [L1, ⟨[[1, 0, 1], [0, 1, 0]], none⟩]
+      [⟨[[1, 1]], some [0]⟩, ⟨[[1], [2]], none⟩] 2 (.r3 (List.replicate 2 x0)) [[[1], [2]], [[1], [3]]] =
+    .ok [[[477], [522]], [[848], [928]]] := by rfl
+
+/-- `vjp_input`: the hypotheses hold for concrete data and the gradient term is not zero -/
+example : dot3 g0 (layerOut L1 (tadd [x0, x0] D0)) = dot3 g0 (layerOut L1 [x0, x0]) + dot3 (gradInput 2 L1.W g0) D0 ∧
+    dot3 (gradInput 2 L1.W g0) D0 = 12 :=
+  ⟨vjp_input L1 2 L1_wf g0 [x0, x0] D0 (by
+      refine ⟨rfl, ?_⟩
+      intro p hp
+      simp only [x0, D0, List.zip_cons_cons, List.zip_nil_right, List.mem_cons, List.not_mem_nil, or_false] at hp
+      rcases hp with rfl | rfl <;> exact ⟨rfl, by decide⟩), by decide⟩
+
+/-- `vjp_weight`, `gradWeight_eq_plain` -/
+example : dot3 g0 (layerOut ⟨madd L1.W dW0, L1.b⟩ (List.replicate g0.length x0)) =
+      dot3 g0 (layerOut ⟨L1.W, L1.b⟩ (List.replicate g0.length x0)) + dot2 (gradWeight 3 2 x0 g0) dW0 ∧
+    gradWeight 3 2 x0 g0 = [[2, 9], [-1, 8], [2, 4]] ∧ dot2 (gradWeight 3 2 x0 g0) dW0 = 4 :=
+  ⟨vjp_weight 3 2 L1.W dW0 L1.b ⟨rfl, by decide⟩ (by intro b hb; cases hb; rfl) g0 x0 (by decide) (by decide),
+   by decide, by decide⟩
+
+/-- `vjp_bias` -/
+example : dot3 g0 (layerOut ⟨L1.W, some (vadd [1, 0, -2] [1, 2, 3])⟩ (List.replicate g0.length x0)) =
+      dot3 g0 (layerOut ⟨L1.W, some [1, 0, -2]⟩ (List.replicate g0.length x0)) + dot (gradBias 3 g0) [1, 2, 3] ∧
+    gradBias 3 g0 = [4, 3, 2] :=
+  ⟨vjp_bias 3 L1.W [1, 0, -2] [1, 2, 3] rfl rfl rfl g0 x0 (by decide), by decide⟩
+
+/-- `gradInput_adjoint` -/
+example : dot3 D0 (gradInput 2 L1.W g0) = dot3 g0 (layerOut ⟨L1.W, none⟩ D0) ∧ dot3 D0 (gradInput 2 L1.W g0) = 12 :=
+  ⟨gradInput_adjoint 2 L1.W (by decide) D0 g0, by decide⟩
+
+end Examples
 
 end TPV.DeepONet
